@@ -351,3 +351,42 @@ Section AssemblyTakeTie.
       (split; [apply distinctb_NoDup; reflexivity|split; [repeat (apply Forall_cons; [cbn [fst snd]; lia|]); apply Forall_nil|reflexivity]]).
   Qed.
 End AssemblyTakeTie.
+
+(* ---- direct solver (give): every entry NODE_BUILD_SOLVER_MATRIX_GIVE accumulates, as T3 regenerates it.  For all x, y the sum of
+   value * x(column) * y(row) over the entries a node contributes is the bilinear form of that node's scatter block in the
+   model -- the same block the give residual applies (gen_give_is_model) -- so the assembled matrix is the residual operator. ---- *)
+Section AssemblyGiveTie.
+  Variable nr nth : Z.
+  Variable h k rad : Z -> R.
+  Variable arr att art det : Z -> Z -> R.
+  Variable beta : Z -> R.
+  Variable dirbc : bool.
+  Hypothesis Hnr : (4 <= nr)%Z.
+  Hypothesis Hnth : (2 <= nth)%Z.
+
+  Definition mw_bil (ws : list (@mwrite Rsc)) (x y : Z -> Z -> R) : R :=
+    fold_right (fun w acc => mw_val w * x (fst (mw_col w)) (snd (mw_col w)) * y (fst (mw_row w)) (snd (mw_row w)) + acc)%R 0%R ws.
+
+  Lemma quot_bounds'' : (0 <= Z.quot nth 2 <= nth)%Z.
+  Proof. split; [apply Z.quot_pos; lia|]. apply Z.quot_le_upper_bound; lia. Qed.
+
+  Ltac wraps4 j Hj :=
+    rewrite ?wrapT_idem;
+    rewrite ?(wrapT_small nth j Hj);
+    rewrite ?(wrapT_wrap1 nth (j - 1)) by lia;
+    rewrite ?(wrapT_wrap1 nth (j + 1)) by lia;
+    rewrite ?(wrapT_wrap1 nth (j + Z.quot nth 2)) by (pose proof quot_bounds''; lia);
+    rewrite ?(wrap1_small nth j Hj).
+
+  Theorem gen_asm_give_is_model : forall (x y : Z -> Z -> R) (i j : Z), (0 <= i < nr)%Z -> (0 <= j < nth)%Z ->
+    mw_bil (@gen_build_solver_matrix_give Rsc nr nth h k rad arr att art det beta dirbc i j) x y =
+    @bil Rsc nr nth h k (rad 0%Z) arr att art det beta dirbc i j x y.
+  Proof.
+    intros x y i j Hi Hj.
+    unfold gen_build_solver_matrix_give, bil, A_give. cbv zeta. wraps4 j Hj.
+    destruct (Z.ltb_spec 1 i); destruct (Z.ltb_spec i (nr - 2)); destruct (Z.eqb_spec i 0); destruct (Z.eqb_spec i 1);
+      destruct (Z.eqb_spec i (nr - 2)); destruct (Z.eqb_spec i (nr - 1)); try lia; subst; destruct dirbc; cbn [andb orb negb];
+      unfold mw_bil, mw_val, mw_col, mw_row, give_center, give_left, give_right, give_bottom, give_top, c1, c2, c3, c4, mass, kk, across, wt;
+      cbn [app fold_right fst snd]; wraps4 j Hj; rsc; ring.
+  Qed.
+End AssemblyGiveTie.
